@@ -17,7 +17,7 @@ for f in sorted((V / "harness" / "props").glob("C*.py")):
     import ast
     for node in ast.parse(src).body:
         if isinstance(node, ast.Assign) and any(getattr(t, "id", None) == "MODELLED" for t in node.targets):
-            specs |= set(ast.literal_eval(node.value))
+            specs |= set(eval(compile(ast.Expression(node.value), str(f), 'eval'), {}))  # our own files: lists, + and comprehensions
 fp = core.fingerprints(sorted(specs))
 bad = {k: v for k, v in fp.items() if v in ("missing",) or v.startswith("unreadable")}
 if bad:
